@@ -136,6 +136,8 @@ def merge(overlay, src, drop_disturbed=False):
     pos = {}
     matched = [False] * (n + 1)
     matched[n] = True
+    inplace = [True] * (n + 1)      # code line i kept its place (matched, or edited in place line for line)
+    ins_before = [False] * (n + 1)  # new source lines were inserted right before overlay code line i
     sm = difflib.SequenceMatcher(None, ocode, scode, autojunk=False)
     for tag, i1, i2, j1, j2 in sm.get_opcodes():
         if tag == 'equal':
@@ -149,12 +151,19 @@ def merge(overlay, src, drop_disturbed=False):
             else:
                 for i in range(i1, i2):
                     pos[i] = j1 if i == i1 else j2
+                    inplace[i] = False
+                ins_before[i2] = True
         elif tag == 'delete':
             for i in range(i1, i2):
                 pos[i] = j1
+                inplace[i] = False
+            ins_before[i2] = True
+        elif tag == 'insert':
+            ins_before[i1] = True
     pos[n] = m
     by_pos = {}
     disturbed = 0
+    structural = 0
     dist_set = set()
     for oi, k in attach:
         by_pos.setdefault(pos[k], []).append(oi)
@@ -162,6 +171,9 @@ def merge(overlay, src, drop_disturbed=False):
         if not (matched[k] and prev_ok):
             disturbed += 1
             dist_set.add(oi)
+        # the hint's position relative to the code is no longer certain: lines were added, removed or re-flowed next to it
+        if ins_before[k] or not inplace[k] or (k > 0 and not inplace[k - 1]):
+            structural += 1
     # a disturbed ghost line taints the whole run of consecutive ghost lines it belongs to
     if drop_disturbed and dist_set:
         for oi, k in attach:
@@ -178,6 +190,7 @@ def merge(overlay, src, drop_disturbed=False):
             out.append(src[j])
             tags.append(('c', j))
     drift = sum(1 for t, i1, i2, j1, j2 in sm.get_opcodes() if t != 'equal' for _ in range(max(i2 - i1, j2 - j1)))
+    merge.last_structural = structural
     return out, tags, disturbed, drift
 
 
@@ -262,7 +275,7 @@ def _build_file(path, repo, cfgs, b, depth):
             section = lines[i + 1:j]
             relfile, ipath, opts = parse_item_args(arg)
             info = {'spec': arg, 'file': relfile, 'path': ipath, 'start': len(b.lines) + 1,
-                    'disturbed': 0, 'drift': 0, 'lost': None, 'opts': opts}
+                    'disturbed': 0, 'structural': 0, 'drift': 0, 'lost': None, 'opts': opts}
             b.lines.append('// >>> %s' % arg)
             b.origin.append(('contract', rel, i + 1))
             try:
@@ -278,6 +291,7 @@ def _build_file(path, repo, cfgs, b, depth):
                     else:
                         b.origin.append(('contract', rel, i + 2 + t[1]))
                 info['disturbed'] = disturbed
+                info['structural'] = getattr(merge, 'last_structural', 0)
                 info['drift'] = drift
                 b.dropped += notes
                 b.rewrites += rwnotes
